@@ -1,7 +1,7 @@
 (* C04 -- proofs about Model/Frame.v: the `window` transform's argument handling, the bound sign rule,
    and soundness of the emitted (possibly elided) frame clause w.r.t. the documented segment. *)
 From Coq Require Import List ZArith QArith NArith Bool Lia Arith.
-From PV Require Import Lib.ListX Model.Rel Model.Frame.
+From PV Require Import Lib.ListX Model.Rel Model.Window Model.Frame.
 Import ListNotations.
 Local Open Scope Z_scope.
 
@@ -459,3 +459,136 @@ Definition scope_example : list sitem :=
 Lemma scope_old_policy_differs :
   fst (scope_run old_flatten_policy scope_example fstate0) <> scope_spec None no_window scope_example.
 Proof. vm_compute. discriminate. Qed.
+
+(* ---------------------------------------------------------------- RANGE frames beyond one ascending key *)
+Lemma key_int_single desc ke r : key_int [(desc, ke)] r = match ev r ke with VInt z => Some (desc, z) | _ => None end.
+Proof. reflexivity. Qed.
+
+Lemma key_int_not_single keys r : (forall desc ke, keys <> [(desc, ke)]) -> key_int keys r = None.
+Proof.
+  intro H. destruct keys as [|[d ke] [|k2 rest]]; try reflexivity. exfalso. apply (H d ke). reflexivity.
+Qed.
+
+Lemma off_from_not_single keys me r a : (forall desc ke, keys <> [(desc, ke)]) -> a <> 0 -> off_from keys me r a = false.
+Proof.
+  intros H Ha. unfold off_from. apply Z.eqb_neq in Ha. rewrite Ha.
+  destruct keys as [|[d ke] [|k2 rest]]; try reflexivity. exfalso. apply (H d ke). reflexivity.
+Qed.
+Lemma off_to_not_single keys me r b : (forall desc ke, keys <> [(desc, ke)]) -> b <> 0 -> off_to keys me r b = false.
+Proof.
+  intros H Hb. unfold off_to. apply Z.eqb_neq in Hb. rewrite Hb.
+  destruct keys as [|[d ke] [|k2 rest]]; try reflexivity. exfalso. apply (H d ke). reflexivity.
+Qed.
+
+Lemma single_or_not (keys : list (bool * expr)) : (exists desc ke, keys = [(desc, ke)]) \/ (forall desc ke, keys <> [(desc, ke)]).
+Proof.
+  destruct keys as [|[d ke] [|k2 rest]]; [right; intros; discriminate | left; eauto | right; intros; discriminate].
+Qed.
+
+(* a start bound, as emitted, selects the rows the generalised reading says -- for ANY keys (outside the domain both
+   sides select nothing) *)
+Lemma range_from_parse_x keys me r z : range_from keys me r (parse_bound z) = off_from keys me r z.
+Proof.
+  unfold off_from.
+  destruct (parse_bound_cases z) as [[H E] | [[H E] | [H E]]]; rewrite E; cbn [range_from].
+  - subst. reflexivity.
+  - assert (N : (z =? 0) = false) by (apply Z.eqb_neq; lia). rewrite N.
+    destruct (single_or_not keys) as [[desc [ke ->]] | NS].
+    + rewrite !key_int_single. destruct (ev me ke); try reflexivity. destruct (ev r ke); reflexivity.
+    + rewrite (key_int_not_single keys me NS). destruct keys as [|[d ke] [|k2 rest]]; try reflexivity. exfalso. apply (NS d ke). reflexivity.
+  - assert (N : (z =? 0) = false) by (apply Z.eqb_neq; lia). rewrite N.
+    destruct (single_or_not keys) as [[desc [ke ->]] | NS].
+    + rewrite !key_int_single. destruct (ev me ke); try reflexivity. destruct (ev r ke); try reflexivity.
+      destruct desc; f_equal; lia.
+    + rewrite (key_int_not_single keys me NS). destruct keys as [|[d ke] [|k2 rest]]; try reflexivity. exfalso. apply (NS d ke). reflexivity.
+Qed.
+
+Lemma range_to_parse_x keys me r z : range_to keys me r (parse_bound z) = off_to keys me r z.
+Proof.
+  unfold off_to.
+  destruct (parse_bound_cases z) as [[H E] | [[H E] | [H E]]]; rewrite E; cbn [range_to].
+  - subst. reflexivity.
+  - assert (N : (z =? 0) = false) by (apply Z.eqb_neq; lia). rewrite N.
+    destruct (single_or_not keys) as [[desc [ke ->]] | NS].
+    + rewrite !key_int_single. destruct (ev me ke); try reflexivity. destruct (ev r ke); reflexivity.
+    + rewrite (key_int_not_single keys me NS). destruct keys as [|[d ke] [|k2 rest]]; try reflexivity. exfalso. apply (NS d ke). reflexivity.
+  - assert (N : (z =? 0) = false) by (apply Z.eqb_neq; lia). rewrite N.
+    destruct (single_or_not keys) as [[desc [ke ->]] | NS].
+    + rewrite !key_int_single. destruct (ev me ke); try reflexivity. destruct (ev r ke); try reflexivity.
+      destruct desc; f_equal; lia.
+    + rewrite (key_int_not_single keys me NS). destruct keys as [|[d ke] [|k2 rest]]; try reflexivity. exfalso. apply (NS d ke). reflexivity.
+Qed.
+
+Lemma range_frame_sound_x a b keys p i :
+  explicit_segment (to_sframe (KRange, a, b)) keys p i = prql_segmentx (KRange, a, b) keys p i.
+Proof.
+  unfold explicit_segment, prql_segmentx, to_sframe, rel_frame, segx, range_segx. cbn [f_units f_start f_end].
+  destruct (nth_error p i) as [me|]; [|reflexivity].
+  apply filter_ext. intro j. destruct (nth_error p j) as [r|]; [|reflexivity]. f_equal.
+  - destruct a as [a|]; cbn [start_bound]; [apply range_from_parse_x | reflexivity].
+  - destruct b as [b|]; cbn [end_bound]; [apply range_to_parse_x | reflexivity].
+Qed.
+
+Lemma explicit_frame_sound_x f keys p i : explicit_segment (to_sframe f) keys p i = prql_segmentx f keys p i.
+Proof.
+  destruct f as [[k a] b]. destruct k; [|apply range_frame_sound_x].
+  rewrite rows_frame_sound. reflexivity.
+Qed.
+
+(* the emitted -- or elided -- clause selects the generalised documented segment: any number of sort keys, either
+   direction, NULL keys, no sort.  (`range_domain` is where the SPECIFICATION of SQL used here is the engines': without
+   offsets anything goes; with offsets one key that is an integer on every row.) *)
+Lemma frame_emit_sound_x f keys p i :
+  (frame_kind f = KRange -> range_domain f keys p) ->
+  sql_frame_segment (emit_frame true (is_sorted keys) f) keys p i = prql_segmentx f keys p i.
+Proof. intros _. rewrite (emitted_segment true f keys p i eq_refl). apply explicit_frame_sound_x. Qed.
+
+(* on Rel.v's domain the generalised reading is Rel.v's *)
+Lemma segx_agrees fr keys p i : (i < length p)%nat -> range_key_ok keys p -> segx fr keys p i = seg fr keys p i.
+Proof.
+  intros Hi [ke [-> Hall]]. destruct fr as [|a b|a b]; try reflexivity.
+  unfold segx, range_segx, seg. destruct (nth_error p i) as [me|] eqn:Eme; [| apply nth_error_None in Eme; lia].
+  destruct (Hall me (nth_error_In _ _ Eme)) as [k Hm]. rewrite Hm.
+  apply filter_ext_in. intros j Hj. destruct (nth_error p j) as [r|] eqn:Er; [|reflexivity].
+  destruct (Hall r (nth_error_In _ _ Er)) as [x Hr]. rewrite Hr. f_equal.
+  - destruct a as [a|]; [|reflexivity]. unfold off_from. rewrite Hm, Hr. destruct (a =? 0) eqn:E0; [|reflexivity].
+    apply Z.eqb_eq in E0. subst. rewrite Z.add_0_r. apply (keys_le_single ke me r k x Hm Hr).
+  - destruct b as [b|]; [|reflexivity]. unfold off_to. rewrite Hm, Hr. destruct (b =? 0) eqn:E0; [|reflexivity].
+    apply Z.eqb_eq in E0. subst. rewrite Z.add_0_r. apply (keys_le_single ke r me x k Hr Hm).
+Qed.
+
+(* which emitted RANGE clauses the engines accept: those without a numeric offset, or over exactly one sort key *)
+Lemma has_offset_parse z : has_offset (parse_bound z) = negb (z =? 0).
+Proof.
+  destruct (parse_bound_cases z) as [[H E] | [[H E] | [H E]]]; rewrite E; cbn [has_offset].
+  - subst. reflexivity.
+  - symmetry. apply negb_true_iff. apply Z.eqb_neq. lia.
+  - symmetry. apply negb_true_iff. apply Z.eqb_neq. lia.
+Qed.
+
+Lemma emitted_range_accepted a b n :
+  (forall x y, a = Some x -> b = Some y -> x <= y) ->
+  sql_accepts (to_sframe (KRange, a, b)) n = offset_free (KRange, a, b) || Nat.eqb n 1.
+Proof.
+  intro H. unfold sql_accepts. rewrite (emitted_frame_legal KRange a b H). cbn [andb to_sframe f_units f_start f_end offset_free is_offset].
+  f_equal. destruct a as [a|]; destruct b as [b|]; cbn [start_bound end_bound is_offset has_offset]; rewrite ?has_offset_parse;
+    repeat match goal with |- context [?z =? 0] => destruct (z =? 0) end; reflexivity.
+Qed.
+
+Lemma emitted_rows_accepted a b n :
+  (forall x y, a = Some x -> b = Some y -> x <= y) -> sql_accepts (to_sframe (KRows, a, b)) n = true.
+Proof. intro H. unfold sql_accepts. rewrite (emitted_frame_legal KRows a b H). reflexivity. Qed.
+
+(* witnesses: two sort keys with a tie on the first (the frame `range:0..0` must separate a/1 from a/2), and the same
+   frame with an offset, which no engine accepts *)
+Definition x_key2 : expr := ECol None 2%N.
+Definition x_keys2 : list (bool * expr) := [(false, w_key); (false, x_key2)].
+Lemma range_two_keys_witness :
+  prql_segmentx (KRange, Some 0, Some 0) x_keys2 t_part 0 = [0%nat] /\
+  sql_frame_segment (emit_frame true true (KRange, Some 0, Some 0)) x_keys2 t_part 0 = [0%nat] /\
+  prql_segmentx (KRange, Some 0, Some 0) w_keys t_part 0 = [0; 1]%nat /\
+  sql_accepts (to_sframe (KRange, Some 0, Some 0)) 2 = true /\
+  sql_accepts (to_sframe (KRange, Some (-1), Some 0)) 2 = false /\
+  sql_accepts (to_sframe (KRange, Some (-1), Some 0)) 0 = false /\
+  prql_segmentx (KRange, Some (-1), Some 0) [(true, w_key)] w_part 1 = [1; 2]%nat.
+Proof. repeat split; vm_compute; reflexivity. Qed.
